@@ -33,6 +33,9 @@ func (m *wireMon) checkPolicyImpl(X int, ti *tsnInfo) {
 			if !m.lastFragmentEmitted(X, msg) {
 				// the message was only partly in flight when this retransmission happened
 				class = "rexmit-limit-exceeded-partly-inflight"
+			} else if m.s[X].inboundReset[ti.sid] {
+				// the peer had reset its direction of this stream id before
+				class = "rexmit-limit-exceeded-after-peer-reset"
 			}
 			w.violate("C06", class, "%s put TSN %d (message %d, stream %d, %d bytes, B=%v E=%v) on the wire %d times; the stream's retransmission limit is %d (at most %d transmissions); times=%v",
 				m.name(X), ti.tsn, msg.id, ti.sid, ti.n, ti.b, ti.e, len(ti.times), msg.relVal, msg.relVal+1, ti.times)
@@ -52,6 +55,8 @@ func (m *wireMon) checkPolicyImpl(X int, ti *tsnInfo) {
 			class := "lifetime-exceeded"
 			if !m.lastFragmentEmitted(X, msg) {
 				class = "lifetime-exceeded-partly-inflight"
+			} else if m.s[X].inboundReset[ti.sid] {
+				class = "lifetime-exceeded-after-peer-reset"
 			}
 			w.violate("C06", class, "%s transmitted TSN %d (message %d, stream %d) %d times later than its lifetime of %v after the first transmission at %v; times=%v",
 				m.name(X), ti.tsn, msg.id, ti.sid, late, life, ti.times[0], ti.times)
